@@ -104,7 +104,12 @@ class _SolverStub:
         self.H, self.rows = _rows(H)
         self.m, self.n = self.H.shape
         _STUB_COUNTER[0] += 1
-        self.uid = f'{self.kind}{_STUB_COUNTER[0]}'
+        # the decode function is identified by the CONTENT of the check matrix (two engines built on
+        # equal matrices are the same function of their remaining inputs): purity across objects is
+        # then decided by congruence
+        import hashlib
+        h = hashlib.sha256(repr((self.H.shape, self.H.indptr.tolist(), self.H.indices.tolist())).encode())
+        self.uid = f'{self.kind}_{h.hexdigest()[:10]}'
         self.calls: List[Any] = []
 
     def _ufs(self, arg_sorts):
@@ -135,7 +140,13 @@ class MatchStub(_SolverStub):
         s = [bool_term(x) for x in np.asarray(z).reshape(-1)]
         if len(s) != self.m:
             raise ValueError(f'syndrome of length {len(s)} for a check matrix with {self.m} rows')
-        c, constraint = self._solution(s, [z3.BoolSort()] * self.m, s)
+        if self.weights is None:
+            wargs = []
+        else:
+            wargs = [term_of(x, 'real') for x in np.asarray(self.weights).reshape(-1)]
+            if len(wargs) != self.n:
+                raise ValueError(f'{len(wargs)} weights for {self.n} columns')
+        c, constraint = self._solution(wargs + s, [z3.RealSort()] * len(wargs) + [z3.BoolSort()] * self.m, s)
         eng.assume(SymBool(constraint))          # contract: a solution exists and is returned
         out = as_sa([Bit(t) for t in c])
         self.calls.append((s, c))
